@@ -84,7 +84,8 @@ pub open spec fn struct_fields_ok(l: &LookupId, st: &ast::Struct, in_path: ast::
     forall|j: int| 0 <= j < st.fields@.len() ==> spec_ffi_safe((#[trigger] st.fields@[j]).1) && allowed_in(l, st.fields@[j].1, in_path, env, false)
 }
 pub open spec fn out_struct_fields_ok(st: &ast::Struct, in_path: ast::Path, env: Env) -> bool {
-    st.fields@.len() > 0 && forall|j: int| 0 <= j < st.fields@.len() ==> allowed_out((#[trigger] st.fields@[j]).1, in_path, env, true, false)
+    // "struct fields FFI-safe" (property text) holds for out-structs as for input structs: the macro compiles both with the field types as written
+    st.fields@.len() > 0 && forall|j: int| 0 <= j < st.fields@.len() ==> spec_ffi_safe((#[trigger] st.fields@[j]).1) && allowed_out(st.fields@[j].1, in_path, env, true, false)
 }
 
 // ---- oracle (method level)
@@ -165,7 +166,8 @@ LO_CONTRACT = f"""        requires item.id is TypeId,
 LOS_CONTRACT = f"""        requires item.id is TypeId,
         ensures {CANARY}
             res.is_ok() ==> item.item.fields@.len() > 0,
-            res.is_ok() && !old(self).attr_validator.disabled_spec(item.item.attrs, item.ty_parent_attrs)
+            // accepted (Ok and no error reported) and not disabled ==> every field is FFI-safe as written and passes the output gate
+            ({ACCEPTED}) && !old(self).attr_validator.disabled_spec(item.item.attrs, item.ty_parent_attrs)
                 ==> out_struct_fields_ok(item.item, *item.in_path, *old(self).env),
 {G.FRAME}"""
 LS_INV = """                invariant
@@ -185,7 +187,8 @@ LOS_INV = """                    invariant
                         ast_out_struct == item.item,
                         name is Err ==> self.errors.errors@.len() > old(self).errors.errors@.len(),
                         fields is Err ==> self.errors.errors@.len() > old(self).errors.errors@.len(),
-                        fields is Ok ==> (forall|j: int| 0 <= j < it.index@ ==> allowed_out((#[trigger] ast_out_struct.fields@[j]).1, *item.in_path, *old(self).env, true, false)),"""
+                        fields is Ok ==> (forall|j: int| 0 <= j < it.index@ ==> allowed_out((#[trigger] ast_out_struct.fields@[j]).1, *item.in_path, *old(self).env, true, false)),
+                        self.errors.errors@.len() == old(self).errors.errors@.len() ==> (forall|j: int| 0 <= j < it.index@ ==> spec_ffi_safe((#[trigger] ast_out_struct.fields@[j]).1)),"""
 TUPLE_HINT = """                    let (name, ty, docs, attrs) = (&f__.0, &f__.1, &f__.2, &f__.3);
                     proof { assert(f__ == {S}.fields@[it.index@]); }"""
 
